@@ -10,6 +10,7 @@ Extraction "model.ml" mk_neutral mk_int mk_word mk_nd mk_u64 mk_i64 of_double of
   rcompare absCompare op_eq op_ne op_lt op_gt op_le op_ge isZero isOne isMOne isInteger sign
   q_init_nd q_axpy q_axpyin q_maxpy q_axmy q_axmyin q_maxpyin q_neg q_negin q_inv q_invin
   q_isOne q_isMOne q_isZero q_areEqual optpair conv_int print_den rmod to_double to_float
+  conv_int_T pow_i64_g q_inv_g q_invin_g exec_negin exec_invin
   upd exec_add exec_sub exec_mul exec_div exec_axpy exec_maxpy exec_axmy exec_axpyin exec_maxpyin exec_axmyin
   exec_addin exec_subin exec_mulin exec_divin exec_neg exec_inv exec_assign.
 Cd "..".
